@@ -29,7 +29,9 @@ RULE = ("paths = every solution of Basic/Specialized tracers in Antarctic, Green
         "replays 15-step shuffled histories (propagate with varying dt, N, interpolation; attenuation with equal-length "
         "arrays and scalars; attribute reads; a sibling solution of the same tracer) on ONE object and compares every "
         "step with a never-used path and with a numpy recomputation, checks that inputs are not mutated and outputs "
-        "do not alias")
+        "do not alias. The form without polarisation (no force_real, negative frequencies looked up) is run for every "
+        "interpolation step and compared with the numpy recomputation using the |f|-symmetric factor and with the "
+        "s-component of the polarised form")
 LEVEL_TEXT = ("theorems C03_* proved over R for every path integral, every pair of indices, every incidence angle, "
               "every signal and polarisation vector; the same model text run on Float agrees with the path classes of "
               "all four tracers on every sampled input")
@@ -766,6 +768,11 @@ def check_path(run, case, idx, path, deep=False):
                                dict(extra, step="pol=generic signal=%s" % sk, interp=None))
         verify_propagation(path, ctx, t0, dt, np.zeros(n), np.array([0.0, 0.0, 1.0]), interp,
                            dict(extra, step="pol=z signal=zero"))
+        # the form without polarisation (no force_real: negative frequencies are looked up), every interpolation step
+        for ip in (None, 0.05, 0.1, 0.5):
+            verify_scalar(path, ctx, t0, dt, x if n != 11 or ip is None else x[:10], ip,
+                          dict(extra, step="scalar", interp=ip))
+        verify_scalar(path, ctx, t0, dt, np.zeros(n), interp, dict(extra, step="scalar signal=zero"))
 
     # ---- histories on one path object, compared step by step with never-used objects and the recomputation
     if which in ("all", "propagate", "history"):
@@ -865,6 +872,83 @@ def verify_propagation(path, ctx, t0, dt, x, pol, interp, extra, fresh=None, ref
     return ss, sp, us, up1
 
 
+def reference_attenuation(path, kind, freqs, interp, nyquist_held=False):
+    """the attenuation factor the property prescribes for every FFT frequency: a function of |f| only - the path's
+    own attenuation(|f|), or for an interpolation step its piecewise-linear interpolation on the log-spaced grid
+    between the lowest positive and the highest frequency (0 added), constant beyond the grid"""
+    fa = np.abs(freqs)
+    if kind in ("uniform", "layered"):
+        return np.asarray(path.attenuation(fa), dtype=float)
+    fmax = float(np.max(freqs))
+    if interp is None:
+        # (the polarised form looks |f| up in a table that ends at the highest positive frequency, so the Nyquist
+        #  bin holds that last value; the scalar form finds -f_Nyquist in the table)
+        return np.asarray(path.attenuation(np.minimum(fa, fmax) if nyquist_held else fa), dtype=float)
+    fmin = float(np.min(freqs[freqs > 0]))
+    lmin, lmax = np.log10(fmin), np.log10(fmax)
+    ns = int((lmax - lmin) / interp)
+    if (lmax - lmin) % interp:
+        ns += 1
+    grid = np.concatenate(([0.0], np.logspace(lmin, lmax, ns + 1)))
+    return np.interp(fa, grid, np.asarray(path.attenuation(grid), dtype=float))
+
+
+def verify_scalar(path, ctx, t0, dt, x, interp, extra, fresh=None):
+    """propagate(signal) without polarisation: grid, energy, no mutation; the applied factor must be the
+    |f|-symmetric attenuation (numpy recomputation) and agree with the s-component of the polarised form"""
+    rt, im, ps, li = mods()
+    kind, fr, fail = ctx["kind"], ctx["fr"], ctx["fail"]
+    x = np.array(x, dtype=float)
+    n = len(x)
+    if n < 2:
+        return
+    times = t0 + dt * np.arange(n)
+    kw = {} if interp is None else {"attenuation_interpolation": interp}
+    s = ps.Signal(times.copy(), x.copy())
+    try:
+        out = path.propagate(s, **kw)
+    except Exception as e:      # noqa: BLE001
+        fail("crash", repr(e)[:200], "one signal", "propagate(signal) raised on a valid input", extra=extra)
+        return
+    if not np.array_equal(s.times, times) or not np.array_equal(s.values, x):
+        fail("input-mutated", None, None, "propagate(signal) changed its input signal", extra=extra)
+    if len(out.times) != n or len(out.values) != n or not np.array_equal(out.times, times + float(path.tof)):
+        fail("grid", None, 0.0, "scalar output times are not the input times delayed by the time of flight",
+             extra=extra)
+        return
+    if not np.all(np.isfinite(out.values)):
+        fail("energy", "non-finite", None, "propagated signal is not finite", extra=extra)
+        return
+    amp = float(np.max(np.abs(x)))
+    e_in, e_out = float(np.sum(x * x)), float(np.sum(out.values ** 2))
+    if e_out > e_in * (1 + 1e-9):
+        fail("energy", e_out, e_in, "propagate(signal) output carries more energy than the input", extra=extra)
+    freqs = np.fft.fftfreq(2 * n, d=float(times[1] - times[0]))
+    a = reference_attenuation(path, kind, freqs, interp)
+    exp = np.real(np.fft.ifft(a * np.fft.fft(np.concatenate((x, np.zeros(n))))))[:n]
+    if float(np.max(np.abs(exp - out.values))) > 1e-7 * amp + 1e-300:
+        j = int(np.argmax(np.abs(exp - out.values)))
+        fail("recompute-scalar", [j, float(out.values[j])], [j, float(exp[j])],
+             "propagate(signal) differs from shift + filter with the |f|-symmetric attenuation factor", extra=extra)
+    # metamorphic: with polarisation u_s0 the s-component is r_s times the scalar form (real r_s)
+    if abs(fr[0].imag) == 0 and amp > 0 and not (interp is None and kind in ("basic", "specialized")):
+        us, _ = path.propagate(polarization=[1.0, 0.0, 0.0])
+        (ss, _sp), _ = path.propagate(ps.Signal(times.copy(), x.copy()), np.asarray(us, dtype=float), **kw)
+        d = float(np.max(np.abs(ss.values - fr[0].real * out.values)))
+        if d > 1e-9 * amp * max(1.0, abs(fr[0])):
+            j = int(np.argmax(np.abs(ss.values - fr[0].real * out.values)))
+            fail("scalar-vs-polarised", [j, float(out.values[j]) * fr[0].real], [j, float(ss.values[j])],
+                 "propagate(signal) is not the s-component of propagate(signal, u_s0) divided by r_s: the applied "
+                 "attenuation is not symmetric in f", extra=extra)
+    if fresh is not None:
+        o2 = fresh.propagate(ps.Signal(times.copy(), x.copy()), **kw)
+        if not np.array_equal(out.times, o2.times) or not np.allclose(out.values, o2.values, rtol=0,
+                                                                       atol=1e-12 * amp):
+            fail("history", float(np.max(np.abs(out.values - o2.values))), 0.0,
+                 "propagate(signal) on a used path object differs from the same call on a never-used path",
+                 extra=extra)
+
+
 def check_history(run, case, idx, kind, fr, k2, fail):
     """several propagate / attenuation calls with varying dt, length, interpolation setting and frequency arrays on
     ONE path object (and a sibling solution of the same tracer), interleaved with attribute reads"""
@@ -914,17 +998,9 @@ def check_history(run, case, idx, kind, fr, k2, fail):
                                dict(extra, sol=sib), fresh=fresh_path(sib), ref_path=fresh_path(sib))
         elif st[0] == "scalar":
             _, n, dt, interp = st
-            kw = {} if interp is None else {"attenuation_interpolation": interp}
-            times = dt * np.arange(n)
-            v = g.standard_normal(n)
-            o1 = path.propagate(ps.Signal(times.copy(), v.copy()), **kw)
-            o2 = fresh_path().propagate(ps.Signal(times.copy(), v.copy()), **kw)
-            if not np.array_equal(o1.times, times + float(path.tof)) or not np.array_equal(o1.times, o2.times) \
-                    or not np.allclose(o1.values, o2.values, rtol=0, atol=1e-12 * float(np.max(np.abs(v)))):
-                fail("history", float(np.max(np.abs(o1.values - o2.values))) if len(o1.values) == len(o2.values)
-                     else None, 0.0,
-                     "propagate(signal) on a used path object differs from the same call on a never-used path",
-                     extra=extra)
+            if interp is not None and n == 11:
+                n = 12
+            verify_scalar(path, ctx, 0.0, dt, g.standard_normal(n), interp, extra, fresh=fresh_path())
         elif st[0] in ("atten", "atten-scalar"):
             f = st[1]
             fin = np.array(f, copy=True)
